@@ -28,6 +28,8 @@ const (
 	kPoolEntry // *hashPool
 	kFunc
 	kUnit
+	kStrList  // []string
+	kSuitePtr // *SuiteConfig (an in/out parameter)
 	kOther
 )
 
@@ -79,6 +81,9 @@ func (t *tr) kindOf(ty types.Type) kind {
 		if b, ok := u.Elem().Underlying().(*types.Basic); ok && b.Kind() == types.Uint8 {
 			return kBytes
 		}
+		if b, ok := u.Elem().Underlying().(*types.Basic); ok && b.Kind() == types.String {
+			return kStrList
+		}
 	case *types.Array:
 		if b, ok := u.Elem().Underlying().(*types.Basic); ok && b.Kind() == types.Uint8 {
 			return kBytes
@@ -100,6 +105,9 @@ func (t *tr) kindOf(ty types.Type) kind {
 			}
 			if n.Obj().Name() == "hashPool" {
 				return kPoolEntry
+			}
+			if n.Obj().Name() == "SuiteConfig" {
+				return kSuitePtr
 			}
 		}
 	case *types.Signature:
@@ -146,8 +154,10 @@ func (t *tr) coqType(n ast.Node, ty types.Type) string {
 		return "(option param)"
 	case kParam:
 		return "param"
-	case kSuite:
+	case kSuite, kSuitePtr:
 		return "suite_cfg"
+	case kStrList:
+		return "(list bytes)"
 	case kInput:
 		return "ocra_input"
 	case kTime:
@@ -199,6 +209,8 @@ func (t *tr) zero(n ast.Node, ty types.Type) string {
 		return "[]"
 	case kErr, kParamPtr:
 		return "None"
+	case kStrList:
+		return "[]"
 	case kParam:
 		return "(mkParam 0 0 0 0)"
 	case kSuite:
